@@ -36,6 +36,8 @@ def solo(kind, n, cfg='default'):
     if key not in _SOLO:
         if cfg == 'default':
             app = S.make_app(private_errors=True)
+        elif cfg == 'debug':
+            app = S.make_app(config={'debug': True}, private_errors=True)
         elif cfg == 'domain':
             app = S.make_app(config=S.domain_config(), private_errors=True)
         else:
@@ -48,6 +50,8 @@ def solo(kind, n, cfg='default'):
 
 
 RECONF = {'max_body_size': 4, 'allow_x_script_name': True, 'debug': True, 'catchall': False, 'app_name_header': 'X-App', 'max_memfile_size': 1}
+
+DEBUG_KINDS = ['notfound', 'crash', 'wrongverb', 'badjson', 'oversized', 'ok', 'cookie_then_abort']       # kinds whose page depends on the debug flag (and one that does not)
 
 KIND = st.sampled_from([k for k in S.KINDS] + ['foreign'])
 
@@ -89,7 +93,7 @@ def case_st(draw):
         threads = {'reqs': [[i, draw(KIND), draw(st.integers(0, 30))], [j, draw(KIND), draw(st.integers(0, 30))]],
                    'schedule': draw(st.lists(st.tuples(st.integers(0, 1), st.integers(1, 200)).map(list), min_size=1, max_size=12))}
     return {'napps': napps, 'default': draw(st.sampled_from([-1, -1, 0, 1])), 'steps': steps, 'threads': threads,
-            'cfg': draw(st.lists(st.sampled_from(['default', 'default', 'custom', 'domain']), min_size=napps, max_size=napps))}
+            'cfg': draw(st.lists(st.sampled_from(['default', 'default', 'custom', 'domain', 'debug']), min_size=napps, max_size=napps))}
 
 
 class World:
@@ -101,14 +105,14 @@ class World:
         self.apps = []
         self.foreign = [dict() for _ in range(case['napps'])]
         self.cfg = list(case.get('cfg') or ['default'] * case['napps'])
-        if case['default'] >= 0 and self.cfg[case['default']] == 'domain':
+        if case['default'] >= 0 and self.cfg[case['default']] in ('domain', 'debug'):
             self.cfg[case['default']] = 'default'       # the module-level default app outlives the case: it never gets the mirrored /blog routes
         for i in range(case['napps']):
             existing = ombott.app if case['default'] == i else None
             # 'default': the stock configuration (its error objects are the process-wide ones every default-config application shares);
             # 'custom': an application configured with its own errors_map
-            config = {'errors_map': _custom_errors()} if self.cfg[i] == 'custom' else (S.domain_config() if self.cfg[i] == 'domain' else None)
-            self.apps.append(S.make_app(probe=self._probe_for(i), config=config, app=existing, foreign=self.foreign[i]))
+            config = {'errors_map': _custom_errors()} if self.cfg[i] == 'custom' else (S.domain_config() if self.cfg[i] == 'domain' else ({'debug': True} if self.cfg[i] == 'debug' else None))
+            self.apps.append(S.make_app(probe=self._probe_for(i), config=config, app=existing, foreign=self.foreign[i], private_errors=(self.cfg[i] == 'debug')))
         self.nforeign = 0
         self.keep = []
         self.undo = []          # listeners are removed at the end of the case (the default app outlives it)
@@ -404,11 +408,11 @@ def run(ctx):
         pairs = [(a, b) for a in kinds for b in kinds]
         # the references of this grid come from fresh interpreter processes, one request each
         from vlib import fresh
-        got = fresh.references([(k, n, cfg, False) for k in kinds for n in (5, 6, 7) for cfg in ('default', 'custom', 'domain')])
-        for (k, n, cfg, _), v in got.items():
+        got = fresh.references([(k, n, cfg, False) for k in kinds for n in (5, 6, 7) for cfg in ('default', 'custom', 'domain')] + [(k, n, 'default', True) for k in DEBUG_KINDS for n in (5, 6, 7)])
+        for (k, n, cfg, dbg), v in got.items():
             if v[0] == 'escaped':
                 raise CheckFailure(f'reference request {k, n, cfg} raised {v[1]}')
-            _SOLO[(k, n, cfg)] = v
+            _SOLO[(k, n, 'debug' if dbg else cfg)] = v
         ctx.count('references_from_fresh_processes', len(got))
         for a, b in pairs[ctx.shard::max(1, ctx.nshards)]:
             for cfg in (['default', 'default'], ['custom', 'default'], ['domain', 'default']):
@@ -419,6 +423,13 @@ def run(ctx):
                 ctx.guarded(check_pair, {'napps': 2, 'default': -1, 'threads': None, 'cfg': cfg,
                                          'steps': [{'app': 0, 'kind': a, 'n': 5, 'acts': []}, {'app': 1, 'kind': b, 'n': 5, 'acts': []}, {'app': 0, 'kind': b, 'n': 5, 'acts': []}]})
         ctx.count('exhaustive_ordered_kind_pairs_across_two_apps', len(pairs))
+        # a non-debug application renders error pages first, then an application with debug on (and the reverse): the debug flag is each application's own
+        dpairs = [(a, b) for a in DEBUG_KINDS for b in DEBUG_KINDS]
+        for a, b in dpairs[ctx.shard::max(1, ctx.nshards)]:
+            for cfg in (['default', 'debug'], ['debug', 'default']):
+                ctx.guarded(check_pair, {'napps': 2, 'default': -1, 'threads': None, 'cfg': cfg,
+                                         'steps': [{'app': 0, 'kind': a, 'n': 5, 'acts': []}, {'app': 1, 'kind': b, 'n': 6, 'acts': []}, {'app': 0, 'kind': b, 'n': 7, 'acts': []}]})
+        ctx.count('debug_flag_pairs', len(dpairs))
         # every request kind after a further application was constructed from the configuration object of A (or B) and then configured differently
         grid = [(k, src, attr) for k in kinds for src in (0, 1) for attr in sorted(RECONF)]
         for k, src, attr in grid[ctx.shard::max(1, ctx.nshards)]:
